@@ -657,6 +657,29 @@ class _Inliner:
         if isinstance(st, ast.ClassDef):
             st.body = self.block(st.body, st, [])
             return [st]
+        # `x = A(...) if c else B(...)` with a (multi-statement) helper in a branch: the helper call is conditional, so the statement is first split into
+        # `if c: x = A(...)  else: x = B(...)` (same evaluation order: the test, then one branch)
+        if isinstance(st, (ast.Assign, ast.AnnAssign, ast.Return, ast.Expr)) and isinstance(getattr(st, 'value', None), ast.IfExp):
+            ie = st.value
+
+            def _has_helper(e):
+                for x in ast.walk(e):
+                    if isinstance(x, ast.Call):
+                        h, _b = self.resolve(x, ctx_cls, ctx_funcs)
+                        if h is not None and h.ok and not h.single_expr:
+                            return True
+                return False
+            if (_has_helper(ie.body) or _has_helper(ie.orelse)) and not _has_helper(ie.test):
+                a_, b_ = copy.copy(st), copy.copy(st)
+                a_.value, b_.value = ie.body, ie.orelse
+                if isinstance(st, ast.Assign):
+                    a_.targets = [_clone(t) for t in st.targets]
+                    b_.targets = [_clone(t) for t in st.targets]
+                new_if = ast.copy_location(ast.If(test=ie.test, body=[a_], orelse=[b_]), st)
+                for x in (a_, b_):
+                    x._parent = new_if
+                new_if._parent = getattr(st, '_parent', None)
+                return self.stmt(new_if, ctx_cls, ctx_funcs)
         # header expressions
         hdr = None
         if isinstance(st, (ast.Assign, ast.AugAssign, ast.AnnAssign, ast.Expr, ast.Return)):
@@ -737,6 +760,39 @@ def _collect_helpers(module, ref_funcs):
                 walk(ch, cls, encl)
     walk(module.tree, None, None)
     return helpers
+
+
+class _ExpandContextManagers(ast.NodeTransformer):
+    """`with helper(): BODY`, where `helper` is a parameterless @contextmanager generator of the same module whose body is `PRE; try: yield finally: FIN`,
+    is by the definition of contextlib.contextmanager the same as `PRE; try: BODY finally: FIN` (no `as` target, the generator does not catch anything)."""
+    def __init__(self, tree):
+        self.count = 0
+        self.managers = {}
+        for f in ast.walk(tree):
+            if not isinstance(f, ast.FunctionDef) or f.args.args or f.args.vararg or f.args.kwarg or f.args.kwonlyargs:
+                continue
+            if not any(ast.unparse(d).split('.')[-1] == 'contextmanager' for d in f.decorator_list):
+                continue
+            body = [st for st in f.body if not (isinstance(st, ast.Expr) and isinstance(st.value, ast.Constant))]
+            if not body or not isinstance(body[-1], ast.Try):
+                continue
+            t = body[-1]
+            if t.handlers or t.orelse or len(t.body) != 1 or not (isinstance(t.body[0], ast.Expr) and isinstance(t.body[0].value, ast.Yield) and t.body[0].value.value is None):
+                continue
+            if any(isinstance(x, (ast.Yield, ast.YieldFrom, ast.Return)) for st in body[:-1] + t.finalbody for x in ast.walk(st)):
+                continue
+            self.managers[f.name] = (body[:-1], t.finalbody)
+
+    def visit_With(self, node):
+        self.generic_visit(node)
+        if len(node.items) == 1 and node.items[0].optional_vars is None and isinstance(node.items[0].context_expr, ast.Call):
+            c = node.items[0].context_expr
+            if isinstance(c.func, ast.Name) and c.func.id in self.managers and not c.args and not c.keywords:
+                pre, fin = self.managers[c.func.id]
+                self.count += 1
+                new = ast.copy_location(ast.Try(body=node.body, handlers=[], orelse=[], finalbody=[_clone(x) for x in fin]), node)
+                return [_clone(x) for x in pre] + [new]
+        return node
 
 
 class _UnrollClassLoops(ast.NodeTransformer):
@@ -838,6 +894,14 @@ def phase_b(repo, ref_funcs, ref_names, ref_shapes=None):
                             b.append(ast.copy_location(ast.Pass(), orig))
         ast.fix_missing_locations(m.tree)
         _annotate(m.tree, m)
+    for m in repo.modules.values():
+        cm = _ExpandContextManagers(m.tree)
+        if cm.managers:
+            m.tree = cm.visit(m.tree)
+            if cm.count:
+                applied['%s:<context managers expanded>' % m.name] = cm.count
+                ast.fix_missing_locations(m.tree)
+                _annotate(m.tree, m)
     for m in repo.modules.values():
         u = _UnrollClassLoops()
         m.tree = u.visit(m.tree)
